@@ -33,9 +33,13 @@ func (o *Obs) String() string {
 type Echo struct {
 	Stream bool
 	Seen   []*Obs
+	Enter  func() // called first in every handler invocation
 }
 
 func (e *Echo) Handle(c context.Context, ctx *app.RequestContext) {
+	if e.Enter != nil {
+		e.Enter()
+	}
 	o := &Obs{}
 	o.Method = string(ctx.Request.Header.Method())
 	o.URI = string(ctx.Request.Header.RequestURI())
